@@ -106,7 +106,7 @@ func runC16(c *Ctx, r *Report) {
 		auth := func(lits []Lit) bool {
 			return hasLit(lits, func(a ssa.Value, v bool) bool {
 				return intFact(a, v, 0, true, func(x ssa.Value) bool { return isLenOf(x, isKeyLoad) }) ||
-					intFact(a, v, 1, true, isCTC)
+					intFact(a, v, 1, true, isCTC) || intFact(a, v, 0, false, isCTC) // ConstantTimeCompare returns 0 or 1
 			})
 		}
 		nSinks := 0
